@@ -3,7 +3,9 @@ package main
 
 import (
 	"fmt"
+	"mc/report"
 	"os"
+	"path/filepath"
 	"strconv"
 
 	"mc/n2"
@@ -12,7 +14,7 @@ import (
 )
 
 func main() {
-	s, _ := refper.LoadSchema("/verif/mc/spec/ngap_schema.json")
+	s, _ := refper.LoadSchema(filepath.Join(report.VerifDir, "mc/spec/ngap_schema.json"))
 	codec := &refper.Codec{S: s}
 	emu := n2.DefaultEmuConfig()
 	v := [5]int{1, 1, 0, 1, 0}
